@@ -46,6 +46,17 @@ def clampVec (z : Nat) (minv : α) (v : List α) : Option (List α) :=
   if v.length ≠ z + 1 then none
   else if v.any (fun x => x < minv) then some (v.map fun x => max' x minv) else some v
 
+/-- `Element.get(element_id, n=…, kT=…)`: the (clamped) initial vectors; `none` = ValueError -/
+def elementGetNK (id : Ident) (n kT : Option (List α)) : Option (Option (List α) × Option (List α)) :=
+  (identify id).bind fun (z, _, _) =>
+    let n' : Option (Option (List α)) := match n with
+      | none => some none
+      | some v => (clampVec z Const.MINIMAL_N_1D v).map some
+    let k' : Option (Option (List α)) := match kT with
+      | none => some none
+      | some v => (clampVec z Const.MINIMAL_KBT v).map some
+    n'.bind fun a => k'.map fun b => (a, b)
+
 /-- `Element.get_gas(element_id, p, r_dt, T)`: `(n, kT)`; `none` = ValueError -/
 def getGas (id : Ident) (p r_dt T : α) : Option (List α × List α) :=
   (identify id).bind fun (z, _, _) =>
